@@ -99,7 +99,7 @@ template <class V> static void vec (const V& v)
 
 template <class R, class F> struct Ops
 {
-    static void run (const char* cls, const char* id, int twin, uint64_t seed, uint64_t opseed, int nops)
+    static void run (const char* cls, const char* id, int twin, uint64_t seed, uint64_t opseed, int nops, const int* fixedOps = 0)
     {
         const char* t = vt_tag (F ());
         R g ((unsigned long) seed);
@@ -110,7 +110,7 @@ template <class R, class F> struct Ops
         static const double dranges[][2] = {{-1.7e308, 1.7e308}, {-1.7976931348623157e308, 8.9e307}, {8.9e307, -1.7976931348623157e308}, {0, 1.7976931348623157e308}};
         for (int i = 0; i < nops; ++i)
         {
-            switch (rng.below (12))
+            switch (fixedOps ? (unsigned) fixedOps[i] : rng.below (12))
             {
                 case 0: { int b = g.nextb (); head (cls, id, twin, "nextb", t); fprintf (o, ",\"out\":%d}\n", b); break; }
                 case 1: { uint64_t v = (uint64_t) g.nexti (); head (cls, id, twin, "nexti", t); fprintf (o, ",\"out\":"); vt_w64 (o, v); fprintf (o, "}\n"); break; }
@@ -157,6 +157,26 @@ static void objects (uint64_t seed, int episodes)
     }
 }
 
+// Directed episodes: generator positions at which nextf() is exactly 0 (the samplers take logarithms and reciprocals of
+// their draws).  The seeds are found by search on the generator itself; the samplers are then called right at them.
+static void zero_draws ()
+{
+    static const int first[]  = {10, 2, 11, 6, 9, 2};          // gauss first
+    static const int second[] = {2, 10, 11, 6, 9, 2};          // one draw, then gauss
+    static const int sphere[] = {11, 10, 6, 9, 2, 2};          // gaussSphere first
+    int found = 0;
+    for (uint64_t sd = 0; sd < (1ull << 27) && found < 3; ++sd)
+    {
+        Rand32 g ((unsigned long) sd);
+        float  a = g.nextf ();
+        if (a != 0.0f) continue;
+        char id[32];
+        snprintf (id, sizeof id, "z32_%d", found);
+        Ops<Rand32, float>::run ("Rand32", id, 0, sd, 1, 6, found == 0 ? first : (found == 1 ? sphere : second));
+        ++found;
+    }
+}
+
 static int replay (const char* path)
 {
     std::ifstream in (path);
@@ -193,7 +213,7 @@ int main (int argc, char** argv)
     int      eps  = argc > 3 ? atoi (argv[3]) : 20;
     if (mode == "imath") { family<ImathFns> (seed, eps); }
     else if (mode == "glibc") { family<LibcFns> (seed, eps); }
-    else if (mode == "objects") { objects (seed, eps); }
+    else if (mode == "objects") { objects (seed, eps); if (seed % 16 == 1) zero_draws (); }
     else return 2;
     return 0;
 }
